@@ -10,6 +10,7 @@ import (
 )
 
 type Obligation struct {
+	Retried   bool // timed out in the parallel batch and was solved again alone
 	Func      string
 	Name      string
 	Kind      string
